@@ -6,6 +6,7 @@ import (
 	"github.com/dsnet/compress/xflate/verifharness/ref"
 	"math/rand"
 
+	"github.com/dsnet/compress/xflate/verifharness/brcraft"
 	"github.com/dsnet/compress/xflate/verifharness/gen"
 	"github.com/dsnet/compress/xflate/verifharness/vhlib"
 )
@@ -129,6 +130,36 @@ func runC11(r *vhlib.Run) {
 	for _, c := range codecs() {
 		for i := 0; i < n; i++ {
 			s := c.Valid(rng, maxPlain)
+			if c.Name == "brotli" && i%3 == 2 {
+				// crafted streams: one-symbol codes, simple codes of every shape, several meta-blocks
+				d := brcraft.Stream(rng, 0, ref.LibBrotliDict())
+				if out, st, used := ref.BrDecompress(d, 1<<24); st == "end" && used == len(d) {
+					s = gen.Stream{Data: d, Plain: out, Valid: true, Kind: "crafted"}
+				}
+			}
+			if c.Name != "meta" && i%4 <= 1 {
+				// text-like data (every block carries code tables of its own), followed - through the same
+				// Reader - by one byte value repeated: one-symbol codes (zero bits per symbol) up to the
+				// last bit of the stream
+				p := gen.Text(rng, 200+rng.Intn(maxPlain))
+				if i%4 == 1 {
+					p = bytes.Repeat([]byte{byte(rng.Intn(256))}, 1+rng.Intn(5000))
+				}
+				var d []byte
+				switch c.Name {
+				case "brotli":
+					d = gen.BrotliEnc(rng, p)
+				case "flate":
+					d = gen.StdDeflate(rng, p, 6)
+				case "bzip2":
+					d = ref.BZCompress(p, 1+rng.Intn(9))
+				}
+				if d != nil {
+					s = gen.Stream{Data: d, Plain: p, Valid: true, Kind: "text-then-one-value"}
+				}
+			}
+			// every other stream is read by a Reader that has already read the one before (Reset)
+			observeReuse = i%2 == 1
 			trailer := vhlib.RandBytes(rng, rng.Intn(65))
 			if c.Name == "meta" && len(trailer) > 0 {
 				// a following meta block would legitimately be... no: the stream ended with a final bit
@@ -183,6 +214,8 @@ func runC11(r *vhlib.Run) {
 			}
 		}
 	}
+	observeReuse = false
+	observeUsed = map[string]rdr{}
 	// ReadByte-only sources with many step boundaries: larger dynamic-Huffman streams, small
 	// Read buffers (every Read ends a decoding step and synchronises the offsets)
 	nbr := 40
